@@ -512,6 +512,18 @@ class ArrayDomain(AffineDomain):
                     return TOP
                 nm = "builtins.max" if last == "maximum" else "builtins.min"
                 return Vec3(tuple(super(ArrayDomain, self).call_external(interp, nm, None, [x, y], {}, node) for x, y in zip(l, r)))
+            if last == "clip" and a0 is not None and (len(args) >= 2 or "a_min" in kwargs or "a_max" in kwargs or "min" in kwargs or "max" in kwargs):
+                # np.clip(x, lo, hi) == minimum(maximum(x, lo), hi); a bound given as None is absent
+                lo = args[1] if len(args) > 1 else kwargs.get("a_min", kwargs.get("min"))
+                hi = args[2] if len(args) > 2 else kwargs.get("a_max", kwargs.get("max"))
+                out = a0
+                for b_, fn_ in ((lo, "numpy.maximum"), (hi, "numpy.minimum")):
+                    if b_ is None or (isinstance(b_, Const) and b_.value is None):
+                        continue
+                    out = self.call_external(interp, fn_, None, [out, b_], {}, node)
+                    if out is TOP:
+                        return TOP
+                return out
             if last in ("fix", "trunc") and a0 is not None:
                 v = self.vec(a0)
                 if v is not None:
